@@ -67,3 +67,59 @@ Example exg_repaired :
   /\ load_index dec_header_canon SrcPlain exg_opts exg_empty_v2 = Ok []
   /\ load_index_reader_at dec_header_canon exg_opts exg_v2 = load_index dec_header_canon SrcSeek exg_opts exg_payload.
 Proof. vm_compute. repeat split; reflexivity. Qed.
+
+(* ---- the hypotheses of the C03 theorems are satisfiable (on the archive above) ------------------- *)
+From Coq Require Import Permutation Sorting.Sorted.
+From GoCarProofs Require Import VarintFacts CidFacts HeaderFacts ScanFacts IndexKv IndexSort IndexCompact
+  IndexSearch IndexRoundtrip IndexLoad IndexCanon IndexGenFacts IndexGenLookup.
+
+Example exg_blocks_ok : Forall gblock_ok exg_blocks.
+Proof.
+  assert (H1 : gblock_ok (exg_cid, [x01; x02])).
+  { exists (mkcid 1 85 18 [xaa; xbb; xcc; xdd]). split; [right; cbv; repeat split; congruence|].
+    split; [reflexivity|]. split; cbv; congruence. }
+  repeat constructor; try exact H1.
+  - exists (mkcid 1 85 0 [x68; x69]). split; [right; cbv; repeat split; congruence|].
+    split; [reflexivity|]. split; cbv; congruence.
+  - exists (mkcid 1 113 18 [x10; x20; x30; x40]). split; [right; cbv; repeat split; congruence|].
+    split; [reflexivity|]. split; cbv; congruence.
+Qed.
+
+Example exg_cids_fit : Forall (cid_fits exg_opts) exg_blocks.
+Proof. repeat constructor; intros _; cbv; congruence. Qed.
+
+Example exg_hdr_fits : hdr_fits dec_header_canon exg_opts [] /\ pragma_good dec_header_canon exg_opts.
+Proof.
+  split.
+  - apply hdr_fits_canon; [split; [constructor|cbv; reflexivity]|cbv; congruence|cbv; reflexivity].
+  - apply pragma_good_canon. cbv. congruence.
+Qed.
+
+Example exg_sizes :
+  blen (v2_container 0 0 0 [x00; xff; x00] (enc_payload [] exg_blocks) exg_trailer) < two63 /\
+  recs_fit (section_recs exg_opts (hlen_of []) exg_blocks).
+Proof. split; [vm_compute; reflexivity|unfold recs_fit; vm_compute; congruence]. Qed.
+
+(* an instance of the CID-size limit and of zero padding *)
+Example exg_cid_too_large :
+  load_index dec_header_canon SrcPlain (mkgopts false 33554432 false 7) exg_payload = Err ECidTooLarge
+  /\ load_index dec_header_canon SrcSeek (mkgopts false 33554432 true 7) exg_payload = Err ECidTooLarge
+  /\ load_index dec_header_canon SrcSeek (mkgopts false 33554432 true 8) exg_payload
+     = Ok (section_recs (mkgopts false 33554432 true 8) 18 exg_blocks).
+Proof. vm_compute. repeat split; reflexivity. Qed.
+
+Example exg_zero_padding :
+  load_index dec_header_canon SrcPlain (mkgopts true 33554432 false 2048) (exg_payload ++ [x00; x00; x00])
+  = Ok (section_recs exg_opts 18 exg_blocks)
+  /\ load_index dec_header_canon SrcPlain exg_opts (exg_payload ++ [x00; x00; x00]) = Err EOther.
+Proof. vm_compute. split; reflexivity. Qed.
+
+(* lookups on the generated index: the duplicate section gives two offsets, the identity CID is not
+   indexed by default and is with StoreIdentityCIDs *)
+Example exg_lookups :
+  spec_lookup exg_opts true 18 [xaa; xbb; xcc; xdd] 18 exg_blocks = [18; 47]
+  /\ spec_lookup exg_opts true 0 [x68; x69] 18 exg_blocks = []
+  /\ spec_lookup (mkgopts false 33554432 true 2048) true 0 [x68; x69] 18 exg_blocks = [29]
+  /\ section_at exg_payload 47 = Some (exg_cid, [x01; x02])
+  /\ section_at exg_payload 46 = None.
+Proof. vm_compute. repeat split; reflexivity. Qed.
